@@ -281,6 +281,34 @@ Example C13_viac_statement_wf :
                     [([50;48;49;56;45;48;54;45;50;48]%Z, [54;55;54;56;46;53;53;54]%Z)] = true.
 Proof. vm_compute. reflexivity. Qed.
 
+(* supercard: the "sep=;" record, the column header, well-formed rows; per booking row Gutschrift
+   resp. -Belastung booked from Expenses:TBD to the account *)
+Theorem C13_supercard_stdout : forall flag acct recs,
+  account_flag flag = AAcc acct -> sup_statement_wf recs = true ->
+  exists out, sup_statement_output acct recs = Some out /\ run_supercard flag (map CRec recs) = mkRun out SOk.
+Proof. exact supercard_stdout. Qed.
+Print Assumptions C13_supercard_stdout.
+
+Example C13_supercard_statement_wf :
+  sup_statement_wf [sup_first; [[75]];
+             [[49]; [50]; [79]; [48;57;46;48;53;46;50;48;50;49]; [65]; [84]; [51;46;50;48]; s_CHF; []; s_CHF;
+              [51;46;50;48]; []; [49;48;46;48;53;46;50;48;50;49]]]%Z = true.
+Proof. vm_compute. reflexivity. Qed.
+
+(* swisscard: every record a well-formed row (a booking row or an ignored one); per booking row the
+   Billing Amount booked from the account to Expenses:TBD *)
+Theorem C13_swisscard_stdout : forall flag acct recs,
+  account_flag flag = AAcc acct -> sc_statement_wf recs = true ->
+  exists out, sc_statement_output acct recs = Some out /\ run_swisscard flag (map CRec recs) = mkRun out SOk.
+Proof. exact swisscard_stdout. Qed.
+Print Assumptions C13_swisscard_stdout.
+
+Example C13_swisscard_statement_wf :
+  sc_statement_wf [[[84]; [80]; [67]; [66]; [68]; [67]; [83]; [90]; [82]; [70]; [83]];
+            [[49;52;46;48;50;46;50;48;50;48]; [49;52;46;48;50;46;50;48;50;48]; [49]; [45;67;72;70;50;39;48;48;48;46;53;48];
+             [100]; []; []; []; []; [68]; []]]%Z = true.
+Proof. vm_compute. reflexivity. Qed.
+
 (* swisscard: the importer's one-pass replacer = remove every "CHF", then every "'" *)
 Theorem C13_swisscard_amount_text : forall s, sc_clean s = sc_amount_text s.
 Proof. exact sc_clean_spec. Qed.
